@@ -16,7 +16,7 @@ func wsp(t *rapid.T, label string) string {
 // MarkerVars are the PEP 508 environment variables the library knows.
 var MarkerVars = []string{"python_version", "python_full_version", "os_name", "sys_platform", "platform_release", "platform_system", "platform_machine", "platform_python_implementation", "implementation_name", "implementation_version", "platform_version"}
 
-var markerLiterals = []string{"3.9", "3.9.6", "3.10", "3", "3.8", "2.7", "3.9.0", "3.9.*", "linux", "linux2", "win32", "x86_64", "6.9.10", "5.0", "6.9.10-1rodete5-amd64", "cpython", "CPython", "posix", "nt", "Linux", "", "darwin", "lin", "3.9.6.post1", "4", "3.9rc1", "#1 SMP", "x86"}
+var markerLiterals = []string{"3.9", "3.9.6", "3.10", "3", "3.8", "2.7", "3.9.0", "3.9.*", "linux", "linux2", "win32", "x86_64", "6.9.10", "5.0", "6.9.10-1rodete5-amd64", "cpython", "CPython", "posix", "nt", "Linux", "", "darwin", "lin", "3.9.6.post1", "4", "3.9rc1", "#1 SMP", "x86", "v3.8", "V3.9.6", "v3.9", " 3.9", "3.9 ", "3.09", "3.9.0.0"}
 
 var markerOps = []string{"==", "!=", "<", "<=", ">", ">=", "~=", "===", "in", "not in"}
 
